@@ -113,7 +113,12 @@ def generate(seed_: int, run: int, reactions: list[str]) -> dict:
             elif r < 0.45:
                 ops.append(gen_config_op(rng, slot, slots[slot], dyn, sel_range))
             elif r < 0.92:
-                ops.append(gen_formulate(rng, slot, fault_mode))
+                op = gen_formulate(rng, slot, fault_mode)
+                if (op.get("fault") or {}).get("kind") == "probe_raise" and rng.random() < 0.85:
+                    # a fault without workload tests nothing: make sure a probe is attached somewhere
+                    ops.append({"op": "assign", "b": slot, "dyn": rng.choice(["probeA", "probeB"]),
+                                "sel": {"kind": "name", "i": rng.randrange(sel_range), "n": 0}})
+                ops.append(op)
             elif fault_mode:
                 ops.append({"op": "evict", "cache": rng.randrange(64)})
             else:
@@ -128,17 +133,40 @@ def generate(seed_: int, run: int, reactions: list[str]) -> dict:
 # --------------------------------------------------------------------------- #
 # execution + oracle
 # --------------------------------------------------------------------------- #
+def fresh_interpreter_reference(cfg: str, key: dict) -> dict:
+    """The same reference, computed by exec'ing a new interpreter (thorough tier, sampled)."""
+    import os  # noqa: PLC0415
+    import subprocess  # noqa: PLC0415
+
+    env = dict(os.environ, PYTHONHASHSEED=ZygoteSet.hashseed_of(cfg), PYTHONPATH=str(core.VERIF),
+               VERIF_REPO=str(core.REPO), PYTHONDONTWRITEBYTECODE="1")
+    proc = subprocess.run([core.PYTHON, "-m", "simverif.fresh", PROFILE, cfg, "reference", json.dumps({"key": key})],
+                          env=env, cwd=str(core.VERIF), capture_output=True, text=True, timeout=600, check=False)
+    if proc.returncode != 0 or not proc.stdout:
+        raise HarnessError(f"fresh interpreter failed: {proc.stderr[-300:]}")
+    return json.loads(proc.stdout)
+
+
 class References:
-    def __init__(self, zy: ZygoteSet) -> None:
+    def __init__(self, zy: ZygoteSet, fresh_sample: bool = False) -> None:
         self.zy = zy
         self.memo: dict[tuple[str, str], dict] = {}
         self.computed = 0
+        self.fresh_sample = fresh_sample
+        self.fresh_checked = 0
+        self.fresh_mismatch: list[dict] = []
 
     def get(self, cfg: str, key: dict) -> dict:
         k = (cfg, json.dumps(key, sort_keys=True))
         if k not in self.memo:
             self.memo[k] = self.zy.call(cfg, "reference", {"key": key}, timeout=180)
             self.computed += 1
+            if self.fresh_sample and core.sha(k)[0] == "0":  # 1 key in 16
+                fresh = fresh_interpreter_reference(cfg, key)
+                self.fresh_checked += 1
+                diff = _compare(self.memo[k], fresh)
+                if diff:
+                    self.fresh_mismatch.append({"cfg": cfg, "key": key, "attr": diff})
         return self.memo[k]
 
 
@@ -212,11 +240,16 @@ class Context:
         self.seed = seed_
         self.options = options
         self.info = zy.ensure("H0")
-        self.refs = References(zy)
+        self.refs = References(zy, fresh_sample=options.get("tier") == "thorough")
 
     def run(self, r: int) -> dict:
         workload = generate(self.seed, r, self.info["reactions"])
         out = execute(self.zy, self.refs, r, workload)
+        while self.refs.fresh_mismatch:
+            mm = self.refs.fresh_mismatch.pop()
+            out["violations"].append({"sig": f"fresh-interpreter:{mm['attr']}",
+                                      "detail": f"cfg={mm['cfg']} rx={mm['key']['rx']}: a fork of the pristine zygote and a "
+                                                f"newly exec'ed interpreter formulate different '{mm['attr']}'"})
         record = {"run": r, "violations": [], "stats": stats_of(workload, out),
                   "workload": workload if r < 2 else None}
         seen = set()
@@ -227,7 +260,7 @@ class Context:
         return record
 
     def finish(self) -> dict:
-        return {"references_computed": self.refs.computed,
+        return {"references_computed": self.refs.computed, "fresh_checked": self.refs.fresh_checked,
                 "zygote_nonempty_caches": self.info.get("nonempty_caches"),
                 "caches": self.info.get("caches"), "reactions": self.info.get("reactions")}
 
@@ -404,6 +437,7 @@ def coverage(records: list[dict], extras: list[dict], options: dict) -> dict:
         "process_global_caches_touched": sorted(touched),
         "segments_per_hash_config": cfgs,
         "references_computed": sum(e.get("references_computed", 0) for e in extras),
+        "references_cross_checked_in_newly_execed_interpreter": sum(e.get("fresh_checked", 0) for e in extras),
         "zygote_nonempty_caches": next((e.get("zygote_nonempty_caches") for e in extras
                                         if e.get("zygote_nonempty_caches") is not None), None),
         "reaction_pool": next((e.get("reactions") for e in extras if e.get("reactions")), []),
